@@ -27,6 +27,8 @@ TRUSTED = [
     "the ragged columns use the C05 refinement lemmas (Proofs/MntProofs.v mnt_select_refines_proof, Proofs/MetProofs.v "
     "met_select_refines_proof) -- no section hypothesis is left; the theorem statement itself is additionally evaluated "
     "on every correspondence case (c07_stmt)",
+    "every index object passed to a selection is snapshotted and must be unchanged afterwards; one index object is "
+    "reused across the steps of a chain and across two frames (shared_index cases)",
     "harness/c07.py + harness/frames.py + harness/ragged.py (generator, per-column nested-list oracle, Coq printer)",
 ]
 ASSUMPTIONS = [
@@ -78,7 +80,32 @@ def gen_case(rng, tier):
             fr["num_rows"] = 0
     else:
         fr = F.gen_frame(rng)
+    if fr["n"] > 0 and rng.chance(0.12):
+        return gen_shared_index_case(rng, fr)
     return {"frame": fr, "chain": gen_chain(rng, fr["n"])}
+
+
+def gen_shared_index_case(rng, fr):
+    """ONE index object (tensor or list, mostly negative entries) used for several selections: a chain tf[idx][idx]..
+    and / or the same object applied to a second frame afterwards.  The objects of equal JSON are shared in run()."""
+    n = fr["n"]
+    mode = rng.wpick([(3, "chain"), (3, "two-frames"), (2, "both")])
+    kind = rng.pick(["tensor", "tensor", "list"])
+    case = {"frame": fr, "shared_index": True}
+    if mode in ("chain", "both"):
+        L = n + rng.randint(0, 2)                       # at least n entries, so the index stays valid on its own result
+        ix = {"t": kind, "l": [rng.randint(-n, -1) if rng.chance(0.8) else rng.randint(0, n - 1) for _ in range(L)]}
+        case["chain"] = [ix] * rng.randint(2, 3)
+    else:
+        L = rng.randint(1, n + 1)
+        ix = {"t": kind, "l": [rng.randint(-n, -1) if rng.chance(0.85) else rng.randint(0, n - 1) for _ in range(L)]}
+        case["chain"] = [ix]
+    if mode in ("two-frames", "both"):
+        lo = max(-min(ix["l"]), max(ix["l"]) + 1, 1)    # smallest row count on which every entry is in range
+        n2 = lo + rng.randint(0, 2) if rng.chance(0.85) else max(lo - 1, 1)
+        fr2 = F.gen_frame(rng, n=n2, featureless_p=0.0)
+        case["second"] = fr2
+    return case
 
 
 def exhaustive(rng):
@@ -169,25 +196,57 @@ def read_cols(tf):
     return out
 
 
+def index_snapshot(obj):
+    import torch
+    if isinstance(obj, torch.Tensor):
+        return ("tensor", str(obj.dtype), obj.tolist())
+    if isinstance(obj, list):
+        return ("list", list(obj))
+    return ("other", repr(obj))
+
+
+def select_step(tf, obj):
+    """tf[obj] with the frame AND the index argument snapshotted before and compared after"""
+    snap, isnap = F.deep_snapshot(tf), index_snapshot(obj)
+    try:
+        r = tf[obj]
+    except Exception as ex:
+        return None, {"ok": False, "exc": C.exc_name(ex), "src_same": F.deep_snapshot(tf) == snap,
+                      "index_same": index_snapshot(obj) == isnap, "index_after": index_snapshot(obj)[-1]}
+    rec = {"ok": True, "src_same": F.deep_snapshot(tf) == snap, "index_same": index_snapshot(obj) == isnap,
+           "index_after": index_snapshot(obj)[-1]}
+    try:
+        rec["frame"] = F.read_frame(r)
+        rec["cols"] = read_cols(r)
+        rec["is_tf"] = type(r).__name__
+    except Exception as ex:
+        rec["read_exc"] = C.exc_name(ex) + ": " + str(ex)[:200]
+    return r, rec
+
+
 def run(case):
     tf = F.build_frame(case["frame"])
     obs = {"start": F.read_frame(tf), "steps": []}
+    shared = {}
+
+    def index_object(ix):
+        if not case.get("shared_index"):
+            return R.to_py_index(ix)
+        key = json.dumps(ix, sort_keys=True)
+        if key not in shared:
+            shared[key] = R.to_py_index(ix)              # built once, the SAME object is passed again later
+        return shared[key]
+
     for ix in case["chain"]:
-        snap = F.deep_snapshot(tf)
-        try:
-            r = tf[R.to_py_index(ix)]
-        except Exception as ex:
-            obs["steps"].append({"ok": False, "exc": C.exc_name(ex), "src_same": F.deep_snapshot(tf) == snap})
-            break
-        rec = {"ok": True, "src_same": F.deep_snapshot(tf) == snap}
-        try:
-            rec["frame"] = F.read_frame(r)
-            rec["cols"] = read_cols(r)
-            rec["is_tf"] = type(r).__name__
-        except Exception as ex:
-            rec["read_exc"] = C.exc_name(ex) + ": " + str(ex)[:200]
+        r, rec = select_step(tf, index_object(ix))
         obs["steps"].append(rec)
+        if r is None:
+            break
         tf = r
+    if case.get("second") is not None:
+        tf2 = F.build_frame(case["second"])
+        obs["second_start"] = F.read_frame(tf2)
+        _, obs["second"] = select_step(tf2, index_object(case["chain"][0]))
     return obs
 
 
@@ -229,6 +288,62 @@ def check_rids(o, rids):
     return None
 
 
+def judge_step(k, ix, g, ref, rids, kd, where=""):
+    """one selection against the per-column nested-list reference; returns (failure | None, new ref, new rids)"""
+    if not g.get("src_same", True):
+        return dict(key="source-modified", what=f"step {k}{where} ({ix['t']}) modified the frame it selected from"), ref, rids
+    if not g.get("index_same", True):
+        return dict(key="index-argument-modified",
+                    what=f"step {k}{where}: tf[idx] rewrote the caller's index object in place: {ix['l'] if 'l' in ix else ix} "
+                         f"became {g.get('index_after')}", expected=ix, observed=g.get("index_after")), ref, rids
+    try:
+        exp = F.ref_select(ref, ix)
+        pos = R.ref_positions(ix if ix["t"] != "int" else {"t": "list", "l": [ix["i"]]}, ref["len"])
+    except R.RefErr as ex:
+        if g["ok"]:
+            if kd == "empty":
+                if g.get("frame", {}).get("len") != 0:
+                    return dict(key="empty-frame-len", what="selection from the empty frame reports rows", observed=g), ref, rids
+                return None, None, rids
+            return dict(key=f"no-raise:{'featureless' if kd == 'featureless' else ix['t']}",
+                        what=f"step {k}{where}: tf[{ix}] returned a frame of {g.get('frame', {}).get('len')} rows from a "
+                             f"frame of {ref['len']} rows where the same selection on a list of rows raises ({ex})",
+                        expected="raise", observed=g), ref, rids
+        return None, None, rids
+    if not g["ok"]:
+        return dict(key=f"raises:{kd}:{ix['t']}",
+                    what=f"step {k}{where}: tf[{ix}] raised {g.get('exc')} on a frame of {ref['len']} rows "
+                         f"({kd}); the list selection gives rows {pos}", expected=exp, observed=g), ref, rids
+    if "read_exc" in g:
+        return dict(key=f"unreadable:{kd}:{ix['t']}", what=f"step {k}{where}: result cannot be read ({g['read_exc']})",
+                    expected=exp, observed=g), ref, rids
+    got = g["frame"]
+    rids = [rids[i] for i in pos]
+    if got["len"] != len(pos):
+        return dict(key=f"wrong-len:{kd}:{ix['t']}",
+                    what=f"step {k}{where}: len(tf[{ix}]) = {got['len']} but {len(pos)} rows are selected",
+                    expected=exp, observed=got), ref, rids
+    bad = check_rids(got, rids)
+    if bad:
+        return dict(key=f"incoherent-rows:{kd}:{ix['t']}", what=f"step {k}{where}: tf[{ix}]: {bad}",
+                    expected=exp, observed=got), ref, rids
+    if F.canon_obs(got)["names"] != F.canon_obs(exp)["names"]:
+        return dict(key="names-changed", what=f"step {k}{where}: column names changed by a row selection",
+                    expected=exp["names"], observed=got["names"]), ref, rids
+    if not F.obs_same(got, exp):
+        return dict(key=f"wrong-rows:{kd}:{ix['t']}",
+                    what=f"step {k}{where}: tf[{ix}] differs from selecting rows {pos} from every column separately",
+                    expected=exp, observed=got), ref, rids
+    if g.get("is_tf") != "TensorFrame":
+        return dict(key="wrong-type", what=f"step {k}{where}: result is a {g.get('is_tf')}"), ref, rids
+    for nm, st, colobs in g["cols"]:
+        es, ecol = ref_col(exp, nm)
+        if st != es or colobs != ecol:
+            return dict(key=f"wrong-col-feat:{kd}", what=f"step {k}{where}: tf[{ix}].get_col_feat({nm!r}) is not that "
+                        f"column of the selected rows", expected=[es, ecol], observed=[st, colobs]), ref, rids
+    return None, exp, rids
+
+
 def oracle(case, obs):
     if "harness_exc" in obs:
         return dict(key="harness-exc", what="harness failed to run the case: " + obs["harness_exc"], tb=obs.get("tb"))
@@ -243,57 +358,20 @@ def oracle(case, obs):
     for k, ix in enumerate(case["chain"]):
         if k >= len(steps):
             return dict(key="short-run", what="implementation run stopped early", observed=steps)
-        g = steps[k]
-        if not g.get("src_same", True):
-            return dict(key="source-modified", what=f"step {k} ({ix['t']}) modified the frame it selected from")
-        try:
-            exp = F.ref_select(ref, ix)
-            pos = R.ref_positions(ix if ix["t"] != "int" else {"t": "list", "l": [ix["i"]]}, ref["len"])
-        except R.RefErr as ex:
-            if g["ok"]:
-                if kd == "empty":
-                    if g.get("frame", {}).get("len") != 0:
-                        return dict(key="empty-frame-len", what="selection from the empty frame reports rows",
-                                    observed=g)
-                    return None
-                return dict(key=f"no-raise:{'featureless' if kd == 'featureless' else ix['t']}",
-                            what=f"step {k}: tf[{ix}] returned a frame of {g.get('frame', {}).get('len')} rows from a "
-                                 f"frame of {ref['len']} rows where the same selection on a list of rows raises ({ex})",
-                            expected="raise", observed=g)
-            return None
-        if not g["ok"]:
-            return dict(key=f"raises:{kd}:{ix['t']}",
-                        what=f"step {k}: tf[{ix}] raised {g.get('exc')} on a frame of {ref['len']} rows "
-                             f"({kd}); the list selection gives rows {pos}",
-                        expected=exp, observed=g)
-        if "read_exc" in g:
-            return dict(key=f"unreadable:{kd}:{ix['t']}", what=f"step {k}: result cannot be read ({g['read_exc']})",
-                        expected=exp, observed=g)
-        got = g["frame"]
-        rids = [rids[i] for i in pos]
-        if got["len"] != len(pos):
-            return dict(key=f"wrong-len:{kd}:{ix['t']}",
-                        what=f"step {k}: len(tf[{ix}]) = {got['len']} but {len(pos)} rows are selected",
-                        expected=exp, observed=got)
-        bad = check_rids(got, rids)
-        if bad:
-            return dict(key=f"incoherent-rows:{kd}:{ix['t']}", what=f"step {k}: tf[{ix}]: {bad}",
-                        expected=exp, observed=got)
-        if F.canon_obs(got)["names"] != F.canon_obs(exp)["names"]:
-            return dict(key="names-changed", what=f"step {k}: column names changed by a row selection",
-                        expected=exp["names"], observed=got["names"])
-        if not F.obs_same(got, exp):
-            return dict(key=f"wrong-rows:{kd}:{ix['t']}",
-                        what=f"step {k}: tf[{ix}] differs from selecting rows {pos} from every column separately",
-                        expected=exp, observed=got)
-        if g.get("is_tf") != "TensorFrame":
-            return dict(key="wrong-type", what=f"step {k}: result is a {g.get('is_tf')}")
-        for nm, st, colobs in g["cols"]:
-            es, ecol = ref_col(exp, nm)
-            if st != es or colobs != ecol:
-                return dict(key=f"wrong-col-feat:{kd}", what=f"step {k}: tf[{ix}].get_col_feat({nm!r}) is not that "
-                            f"column of the selected rows", expected=[es, ecol], observed=[st, colobs])
-        ref = exp
+        f, ref, rids = judge_step(k, ix, steps[k], ref, rids, kd)
+        if f is not None:
+            return f
+        if ref is None:
+            break
+    if case.get("second") is not None and "second" in obs:
+        fr2 = case["second"]
+        ref2 = F.ref_of_desc(fr2)
+        if not F.obs_same(obs["second_start"], ref2):
+            return dict(key="build-mismatch", what="the second frame read back differs from its description")
+        f, _, _ = judge_step(0, case["chain"][0], obs["second"], ref2, list(range(fr2["n"])), kinds_of(fr2),
+                             where=" (the same index object, applied to a second frame afterwards)")
+        if f is not None:
+            return f
     return None
 
 
@@ -343,7 +421,8 @@ def nontrivial_sig(case, obs):
 
 def stats(cases, obss):
     d = {"total": 0, "kinds": {}, "stypes": {}, "with_y": 0, "explicit_num_rows": 0, "featureless": 0, "rows": {},
-         "index_kinds": {}, "chain_len": {}, "error_cases": 0, "through_empty": 0, "overshooting_slices": 0}
+         "index_kinds": {}, "chain_len": {}, "error_cases": 0, "through_empty": 0, "overshooting_slices": 0,
+         "shared_index_cases": 0, "second_frame_cases": 0}
     for c, o in zip(cases, obss):
         if c is None or not isinstance(o, dict):
             continue
@@ -353,6 +432,8 @@ def stats(cases, obss):
             d["kinds"][f["kind"]] = d["kinds"].get(f["kind"], 0) + 1
             d["stypes"][f["stype"]] = d["stypes"].get(f["stype"], 0) + 1
         d["with_y"] += fr["y"] is not None
+        d["shared_index_cases"] += bool(c.get("shared_index"))
+        d["second_frame_cases"] += c.get("second") is not None
         d["explicit_num_rows"] += fr["num_rows"] is not None
         d["featureless"] += not fr["feats"]
         d["rows"][fr["n"]] = d["rows"].get(fr["n"], 0) + 1
@@ -389,7 +470,9 @@ def sanity(cases, obss):
             probs.append(f"stype {st} never drawn")
     for k, what in (("with_y", "no frame with a target"), ("explicit_num_rows", "no frame with explicit num_rows"),
                     ("featureless", "no feature-less frame"), ("through_empty", "no chain passes through an empty frame"),
-                    ("overshooting_slices", "no overshooting slice")):
+                    ("overshooting_slices", "no overshooting slice"),
+                    ("shared_index_cases", "no case reuses one index object"),
+                    ("second_frame_cases", "no index object applied to a second frame")):
         if d[k] == 0:
             probs.append(what)
     if d["with_y"] == d["total"]:
@@ -407,4 +490,10 @@ def coq_term(case, obs):
     steps = obs["steps"]
     chain = C.clist(case["chain"][:len(steps)], R.coq_index)
     o = C.clist([obs["start"]] + [s.get("frame") if s["ok"] else None for s in steps], F.coq_obs)
-    return f"(c07_check {expr} {chain} {o} && c07_stmt {expr} {chain})"
+    term = f"(c07_check {expr} {chain} {o} && c07_stmt {expr} {chain})"
+    if case.get("second") is not None and "second" in obs and "read_exc" not in obs["second"]:
+        e2 = F.coq_frame(case["second"])
+        c2 = C.clist([case["chain"][0]], R.coq_index)
+        o2 = C.clist([obs["second_start"], obs["second"].get("frame") if obs["second"]["ok"] else None], F.coq_obs)
+        term = f"({term} && c07_check {e2} {c2} {o2})"
+    return term
